@@ -186,7 +186,7 @@ func (env *SpecEnv) ident(name string) (SpecVal, error) {
 		if gt, ok := env.boundGo[name]; ok {
 			g = gt
 		}
-		return SpecVal{V: tv(name), Go: g}, nil
+		return SpecVal{V: tv(name), Go: g, So: so}, nil
 	}
 	switch name {
 	case "true", "false":
